@@ -33,6 +33,7 @@ var c14Templates = []struct{ name, src string }{
 	{"method", `<%= animal.Name() %>`},
 	{"struct-path", `<%= st.Kids[0].Name %><%= x %>`},
 	{"if-else", `<%= if (x > 15) { %>big<%= x %><% } else { %>small<%= x %><% } %>`},
+	{"else-if-chain", `<%= if (x > 100) { %>a<% } else if (x > 90) { %>b<% } else if (x > 80) { %>c<% } else if (x > 15) { %>d<%= x %><% } else { %>e<%= x %><% } %>|<%= if (x > 100) { %>a<% } else if (x > 90) { %>b<% } else if (x > 80) { %>c<% } else if (x > 70) { %>c2<% } else if (x > 60) { %>c3<% } else { %>z<% } %>`},
 	{"error-line", "a\n<%= if (true) { %>\n<%= x / 0 %><% } %>"},
 	{"top-error", "<%= x %>\n\n<%= nope %>"},
 	{"partial", `<%= partial("p", {"w": x}) %>`},
@@ -269,6 +270,37 @@ func c14Scenarios() []c14Scenario {
 		}
 		return bodies, res, want, func() {}
 	}})
+	sc = append(sc, c14Scenario{"partial-with-data-map-of-shared-parent", func(n int) ([]func(), []c14Res, []c14Res, func()) {
+		// the data map handed to partial lives in the shared parent; the partial binds names of its own
+		plush.CacheEnabled = false
+		tm, _ := plush.NewTemplate(`<%= partial("rowp", ropts) %>|<%= x %>`)
+		parent := c14Base()
+		parent.Set("ropts", map[string]interface{}{"cls": "clean"})
+		pf := parent.Value("partialFeeder").(func(string) (string, error))
+		parent.Set("partialFeeder", func(name string) (string, error) {
+			if name == "rowp" {
+				return `<% let mine = x %><% let cls2 = cls + ":" + mine %><%= cls2 %>`, nil
+			}
+			return pf(name)
+		})
+		res := make([]c14Res, n)
+		want := make([]c14Res, n)
+		var bodies []func()
+		for i := 0; i < n; i++ {
+			i := i
+			v := 10 * (i + 1)
+			want[i] = c14Res{fmt.Sprintf("clean:%d|%d", v, v), "<nil>"}
+			child := parent.New()
+			bodies = append(bodies, func() {
+				for k, v := range c14Data(i) {
+					child.Set(k, v)
+				}
+				out, err := tm.Exec(child)
+				res[i] = c14Res{out, errStr(err)}
+			})
+		}
+		return bodies, res, want, func() {}
+	}})
 	sc = append(sc, c14Scenario{"parse-vs-cacheset", func(n int) ([]func(), []c14Res, []c14Res, func()) {
 		src := c14Templates[0].src
 		res := make([]c14Res, n)
@@ -416,7 +448,7 @@ func init() {
 			return s
 		},
 		Run:  c14Run,
-		Rule: "Part A — schedules: real plush code (overlay: scheduling points at every function entry/loop head of the root package and at every mutex operation, sync replaced by a scheduler-aware shim) run under a cooperative scheduler; ALL interleavings with at most B preemptions are enumerated depth-first (choice-prefix replay; replay divergence is a hard error) for: one parsed template executed by 2 threads with own root contexts / with children of one shared parent (16 templates, one per construct class, different data per thread), Render of the same text with a cold cache, Parse vs CacheSet, a contentFor block stored on the shared parent by an earlier execution and run by contentOf in the children at the same time, + on a slice with spare capacity held by the shared parent; oracle: every thread's (out, err) equals its solo result, no deadlock, no panic. Context operations: every pair of 2-operation threads over {Set(k,1), Set(k,2), Value(k), Has(k), Set(j,5), Value(j)} on one context with UNBOUNDED preemptions (as long as the scenario has at most 30 scheduling points, which holds on the unchanged tree; otherwise the largest bound fitting the budget); every recorded call/return history must be linearizable w.r.t. a sequential map (brute force); New() racing with Set/Value with bound 1. Part B — data races: the same scenario bodies free-running (the concurrent phase comes first in each process, solo results are computed afterwards, so lazily built tables are met cold) with 2, 8 and 32 goroutines in a separate -race build, repeated; any race report or 'concurrent map' fatal error is a violation attributed to the scenario. Non-trivial: all scenarios (>=2 threads).",
+		Rule: "Part A — schedules: real plush code (overlay: scheduling points at every function entry/loop head of the root package and at every mutex operation, sync replaced by a scheduler-aware shim) run under a cooperative scheduler; ALL interleavings with at most B preemptions are enumerated depth-first (choice-prefix replay; replay divergence is a hard error) for: one parsed template executed by 2 threads with own root contexts / with children of one shared parent (17 templates, one per construct class, different data per thread), Render of the same text with a cold cache, Parse vs CacheSet, a contentFor block stored on the shared parent by an earlier execution and run by contentOf in the children at the same time, + on a slice with spare capacity held by the shared parent, partial called with a data map held by the shared parent; oracle: every thread's (out, err) equals its solo result, no deadlock, no panic. Context operations: every pair of 2-operation threads over {Set(k,1), Set(k,2), Value(k), Has(k), Set(j,5), Value(j)} on one context with UNBOUNDED preemptions (as long as the scenario has at most 30 scheduling points, which holds on the unchanged tree; otherwise the largest bound fitting the budget); every recorded call/return history must be linearizable w.r.t. a sequential map (brute force); New() racing with Set/Value with bound 1. Part B — data races: the same scenario bodies free-running (the concurrent phase comes first in each process, solo results are computed afterwards, so lazily built tables are met cold) with 2, 8 and 32 goroutines in a separate -race build, repeated; any race report or 'concurrent map' fatal error is a violation attributed to the scenario. Non-trivial: all scenarios (>=2 threads).",
 		Bound: func(th bool) string {
 			if th {
 				return "Part A: per scenario the largest preemption bound b with n^(b+1)/b! <= 2e8 scheduling points (n = points of the default schedule; reported per case, typically 2-3), 2 and 3 threads; context ops unbounded for 2 threads x 2 ops and 3 threads x 1 op, bound 3 for 3 threads (2+1+1 ops); Part B: 200 repetitions x {2,8,32} goroutines"
